@@ -103,6 +103,7 @@ type hist struct {
 	sess    map[int]*sessState
 	r       *vrep.Report
 	topo    struct{ split, merge, move, clock, finish atomic.Int64 }
+	gates   gateState
 	aborted bool
 }
 
@@ -333,7 +334,7 @@ func (h *hist) doRead(si, oi, rep int, st *sessState, path string, keys []string
 	o.cc = h.planCtx(path, rep)
 	o.followUp = st.endedBefore || st.followAll
 	var cnt atomic.Int64
-	if fn != nil || o.cc.during != "" {
+	{
 		cc := o.cc
 		endCtx := func() {
 			o.ctxEnded.Store(true)
@@ -344,12 +345,12 @@ func (h *hist) doRead(si, oi, rep int, st *sessState, path string, keys []string
 				return uni.Action{}
 			}
 			n := cnt.Add(1)
-			act := uni.Action{}
+			act := uni.Action{After: h.asyncGate(c)}
 			if fn != nil && n == at {
 				act.Before = fn
 			}
 			if cc.during != "" && n == cc.atRPC {
-				topo := act.Before
+				topo, gate := act.Before, act.After
 				switch cc.during {
 				case "before-drop": // the context ends, the request never reaches the store
 					act.Kind = uni.DropReq
@@ -367,7 +368,12 @@ func (h *hist) doRead(si, oi, rep int, st *sessState, path string, keys []string
 						endCtx()
 					}
 				default: // executed and answered, the context has ended when the answer arrives
-					act.After = endCtx
+					act.After = func() {
+						if gate != nil {
+							gate()
+						}
+						endCtx()
+					}
 				}
 			}
 			return act
@@ -437,6 +443,16 @@ func (h *hist) doRead(si, oi, rep int, st *sessState, path string, keys []string
 	}
 	if o.err != "" && o.demanded {
 		debugDump(h, o)
+	}
+	if o.err != "" && debugOn() {
+		fmt.Println("ERRREAD", describe(o))
+		if len(o.classes) > 0 && !o.ctxEnded.Load() {
+			for i, c := range h.u.Log.CallsFrom(o.logFrom) {
+				if i < 12 {
+					fmt.Printf("   #%d c%d %s region=%d :: %.260v => %.260v\n", c.Seq, c.Client, c.Cmd, c.RegionID, c.Req, c.Resp)
+				}
+			}
+		}
 	}
 	st.log = append(st.log, describe(o))
 	h.obs = append(h.obs, o)
